@@ -1,0 +1,26 @@
+//go:build verif
+
+package sample
+
+import (
+	"sync/atomic"
+
+	"github.com/cronokirby/saferith"
+)
+
+// primeSource is a verification-only hook (build tag verif): when set, Paillier asks it for a
+// pair of safe Blum primes before searching for them. It has no effect while unset.
+var primeSource atomic.Value // of func() (p, q *saferith.Nat, ok bool)
+
+// SetPrimeSource installs (or, with nil, removes) the verification prime source.
+func SetPrimeSource(f func() (p, q *saferith.Nat, ok bool)) {
+	primeSource.Store(&f)
+}
+
+func verifPrimes() (p, q *saferith.Nat, ok bool) {
+	f, _ := primeSource.Load().(*func() (p, q *saferith.Nat, ok bool))
+	if f == nil || *f == nil {
+		return nil, nil, false
+	}
+	return (*f)()
+}
